@@ -70,7 +70,39 @@ def mk_nowrap(dt, rank):
       n = N[dt]
       # the value handed to astype(int): r = round(ratio)
       ratio, r = ctx.ghost["rounded"][-1]
+      xi_pre = x.at(idx)
       ctx.oblige(f"quantize[{dt}].stored-integer-is-the-cast-of-round(ratio)", SBool(qi.z == z3.fpRoundToIntegral(z3.RTZ(), r.z)))
+      # P1 is decomposed: (A) |ratio| <= N + 1/4 on the real code; (B) for EVERY float y, |y| <= N + 1/4 implies
+      # |rint(y)| <= N (one-variable lemma, proved here for an arbitrary y and then instantiated at y = ratio).
+      y = fp.fresh_fp("y_lemma")
+      lemma = lambda v: sym.implies(SBool(z3.fpLEQ(z3.fpAbs(v), z3.FPVal(n + 0.25, fp.F32))),
+                                    SBool(z3.fpLEQ(z3.fpAbs(z3.fpRoundToIntegral(fp.RNE, fp.ftz(v))), z3.FPVal(n, fp.F32))))
+      ctx.oblige(f"quantize[{dt}].P1.lemma-B: for every float y, |y| <= N+1/4 => |rint(y)| <= N", lemma(y.z), kind="lemma")
+      ctx.fact(lemma(ratio.z), "instance at y = ratio of lemma B (proved above for an arbitrary float y)")
+      # (A) is itself decomposed: (A') at the row w where the column maximum is attained the ratio involves a single
+      # float; (M) for the same divisor, |x_i| <= |x_w| implies |fl(x_i/d)| <= |fl(x_w/d)| (IEEE rounding and
+      # flush-to-zero are monotone) - library axiom.
+      red = [r_ for r_ in ctx.reductions if r_.kind == "max"][-1]
+      w = red.wit[T._key(idx[1:])][0]
+      idx_w = (w,) + tuple(idx[1:])
+      qv.quantized.at(idx_w)
+      ratio_w, r_w = ctx.ghost["rounded"][-1]
+      aprime = SBool(z3.fpLEQ(z3.fpAbs(ratio_w.z), z3.FPVal(n + 0.25, fp.F32)))
+      if dt == "int8":
+        ctx.oblige(f"quantize[{dt}].P1.A': |x_w / bucket'| <= N + 1/4 at the row attaining the column maximum",
+                   aprime, detail=f"rank {rank}")
+      else:
+        # the bit-precise single-variable query does not terminate for int16 (z3 600 s, cvc5): A' is proved under the
+        # standard rounding model (task "A'[int16]") and, in the thorough tier, by exhaustive enumeration of all
+        # float32 values on the real code (native/c11_exhaustive.py); here it is an explicit assumption.
+        ctx.assume(aprime, "int16: |x_w/bucket'| <= N+1/4 at the maximising row is assumed in the bit-precise chain "
+                   "(proved under the standard rounding model; exhaustively enumerated on the real code in the thorough tier)")
+      ctx.fact(sym.implies(abs(xi_pre) <= abs(x.at(idx_w)),
+                           SBool(z3.fpLEQ(z3.fpAbs(ratio.z), z3.fpAbs(ratio_w.z)))),
+               "IEEE-754: division by the same divisor is monotone in |dividend| (rounding and flush-to-zero are monotone)")
+      ctx.oblige_abstract(f"quantize[{dt}].P1.A: |x / bucket'| <= N + 1/4 for every finite column",
+                          SBool(z3.fpLEQ(z3.fpAbs(ratio.z), z3.FPVal(n + 0.25, fp.F32))),
+                          ops=(z3.Z3_OP_FPA_DIV, z3.Z3_OP_FPA_MUL, z3.Z3_OP_FPA_ROUND_TO_INTEGRAL), detail=f"rank {rank}")
       ctx.oblige(f"quantize[{dt}].P1.stored-integer-never-wraps: |round(x/bucket)| <= {int(n)}",
                  SBool(z3.fpLEQ(z3.fpAbs(r.z), z3.FPVal(n, fp.F32))), detail=f"rank {rank}")
       xi = x.at(idx)
@@ -105,8 +137,8 @@ def mk_diag(dt):
                  SBool(z3.fpIsZero(qv.quantized.at((i, i)).z)))
       deq = qv.to_float()
       d_ii = deq.at((i, i))
-      ctx.oblige(f"to_float[{dt},extract_diagonal].P2.diagonal-reproduced (value-equal; -0 may become +0)",
-                 SBool(z3.fpEQ(d_ii.z, x.at((i, i)).z)))
+      ctx.oblige(f"to_float[{dt},extract_diagonal].P2.diagonal-reproduced bit-for-bit",
+                 d_ii.same_bits(x.at((i, i))))
 
   return t
 
@@ -151,6 +183,31 @@ def mk_halfbucket(dt):
   return t
 
 
+def mk_aprime_rnd(dt):
+  """A' under the standard rounding model: one row, so the column maximum is |x| itself."""
+
+  def t(ctx, it):
+    from pyvc import rnd
+    with rnd.rnd_mode():
+      q = it.load_module(QU)
+      d1 = spec.fresh_int("d1", lo=1)
+      x = rnd.opaque_rnd("x", (1, d1))
+      j = spec.fresh_int("j")
+      ctx.assume(sym.sand(j >= 0, j < d1))
+      n0 = len(ctx.ghost.setdefault("rounded_rnd", []))
+      qv = q.QuantizedValue.from_float_value(x, T.as_dtype(dt))
+      b = qv.bucket_size.at((j,))
+      ctx.assume(SReal(b.z) > 0)
+      qv.quantized.at((0, j))
+      ratio = ctx.ghost["rounded_rnd"][-1]
+      n = N[dt]
+      rr = SReal(ratio.z)
+      ctx.oblige(f"quantize[{dt}].P1.A' (standard rounding model): |x / bucket| <= N + 1/4 when the column maximum is |x|",
+                 sym.sand(rr <= n + 0.25, rr >= -(n + 0.25)))
+
+  return t
+
+
 def mk_idempotent(dt):
 
   def t(ctx, it):
@@ -176,6 +233,7 @@ def tasks(tier):
       ts.append(Task(f"no-wrap/zeros[{dt},rank={rank}]", mk_nowrap(dt, rank)))
     ts.append(Task(f"diagonal[{dt}]", mk_diag(dt)))
     ts.append(Task(f"half-bucket[{dt}]", mk_halfbucket(dt)))
+    ts.append(Task(f"A'[{dt}] standard rounding model", mk_aprime_rnd(dt)))
   ts.append(Task("casts", t_casts))
   if tier == "thorough":
     ts.append(Task("idempotent[int8]", mk_idempotent("int8")))
@@ -183,8 +241,15 @@ def tasks(tier):
 
 
 def main(tier):
-  return H.standard_main(PID, tier, tasks(tier), not_covered=NOT_COVERED,
+  # bit-precise float queries need a longer budget than the default (observed 20-70 s each, 16 cores busy)
+  C.OBL_TIMEOUT_MS = max(C.OBL_TIMEOUT_MS, 400000)
+  ex = H.native_oracle(PID, tier, script="c11_exhaustive.py", extra_args=["int16"] if tier == "quick" else ["int16", "int8"])
+  rec = H.bounded_from_oracle("lemma A' on the real code: exhaustive enumeration of every finite non-negative float32 (complete for "
+                              "this single-variable lemma; backs the int16 assumption of the bit-precise chain)", ex)
+  rec["exhaustive"] = True
+  return H.standard_main(PID, tier, tasks(tier), not_covered=NOT_COVERED, extra_bounded=[rec],
                          trusted_extra=["float32 model: z3 FloatingPoint, RNE, flush-to-zero on operands and results (XLA CPU)",
-                                        "astype(int8/int16) of an integral float in range is exact; out of range the result is arbitrary"],
+                                        "astype(int8/int16) of an integral float in range is exact; out of range the result is arbitrary",
+                                        "IEEE-754: division by the same divisor is monotone in |dividend|"],
                          structural=["int8, int16 x rank 1..3, symbolic dims, every finite float32 column (P1, P2, P3a)",
-                                     "P3b under the standard rounding model"])
+                                     "P3b and A'(int16) under the standard rounding model"])
